@@ -347,8 +347,12 @@ pub fn c11_sched_judge(c: &SchedCase, o: &SchedObs, sink: &mut Sink) -> Verdict 
             }
         }
         if !body_dropped {
-            if o.lost_wakeup.is_some() || o.deadlock.is_some() {
-                return Verdict::DontCare("progress problem (C10)".into());
+            if let Some(why) = o.lost_wakeup.as_ref().or(o.deadlock.as_ref()) {
+                // the abort was swallowed: the consumer sleeps and never sees the error
+                if o.terminal.is_none() {
+                    return Verdict::viol(format!("abort-swallowed-consumer-sleeps|{}", mode), format!("abort() returned, the consumer never observed the error: {}", why));
+                }
+                return Verdict::DontCare("progress problem after the terminal event (C10)".into());
             }
             match &o.terminal {
                 Some(Ev::Err(_)) => {}
